@@ -39,7 +39,7 @@ def main():
         'hooks': {'guard': 'slac_verif', 'enable': 'RUSTFLAGS="--cfg slac_verif" (no source hooks exist: every observation goes through the public API)',
                   'baseline_off_cmd': 'cd /repo && cargo test --workspace --no-fail-fast --offline', 'source_commits': [], 'add_only': True},
         'engines': [{'name': 'coq-model+correspondence', 'path': 'check', 'serves_properties': [c['property_id'] for c in checks],
-                     'kind_free_text': 'Coq 8.16 development (coq/), translator (tools/translate.py), extracted OCaml model (ocaml/driver.ml), Rust harness (harness/), orchestrator (check, tools/vlib)'}],
+                     'kind_free_text': 'Coq 8.16 development (coq/), translator (tools/translate.py), source pins (tools/pins.py), extracted OCaml model (ocaml/driver.ml), Rust harness (harness/), orchestrator (check, tools/vlib)'}],
         'checks': checks,
         'notes': 'Exit 2 from a check is a machinery error (unexpected axiom, forbidden vernacular, driver build failure), never a verdict. known_findings.json lists recorded and repaired defects.',
         'not_applicable': na,
